@@ -84,7 +84,7 @@ def run(ctx, pid, oracle, name, assumptions, fields=("view", "adjin", "counters"
     norm_impl, norm_model = mk_norms(fields)
     proof = core.coq_properties(pid)
     ctx.say("proof stage: ok=%s theorems=%d audit=%d (%.1fs)" % (proof["ok"], len(proof["theorems"]), len(proof["audit"]), proof.get("wall_s", 0)))
-    n = ctx.scale(1500, 40000)
+    n = ctx.scale(1500, 15000)
     def gen():
         c = simlib.gen_scenario(ctx.rng, kinds=kinds, addpath=addpath)
         if watch:
